@@ -71,6 +71,7 @@ def gen_session(rng, n_ops, finding_stream=False):
                 sb.create_feature(ts, dom, rng.choice(tsgen.FEAT_NAMES), rng.choice(tsgen.RANGES_PRIM + sh.order[-5:]))
             # feature creation is C11's subject: here it only has to leave the tree alone
     # the queries are asked of the type system itself or of one derived from it by XML / JSON loading or merging
+    orig = ts
     if kind is not None:
         ts = tsderive.derive(rng, sb, ts, sh, kind)
     lst = (lambda l: ("val", l)) if kind is None else (lambda l: ("set", sorted(l)))
@@ -95,6 +96,16 @@ def gen_session(rng, n_ops, finding_stream=False):
         expect[i] = ("val", r) if r is not None else "TypeNotFoundError"
         i = len(sb.ops); sb.query(ts, "contains", name=n); expect[i] = ("val", r is not None)
     i = len(sb.ops); sb.query(ts, "identity"); expect[i] = ("val", True)
+    if kind is not None:
+        # a derivation leaves the type system it started from alone: it still describes one tree of its own objects, also
+        # after it grows further
+        i = len(sb.ops); sb.query(orig, "identity"); expect[i] = ("val", True)
+        if user:
+            sup = rng.choice(user)
+            nn = "late.Sub%d" % rng.randrange(10 ** 6)
+            i = len(sb.ops); sb.create_type(orig, nn, sup); expect[i] = "ok"
+            i = len(sb.ops); sb.query(orig, "descendants", name=sup); expect[i] = ("set", sorted(sh.descendants(sup) + [nn]))
+            i = len(sb.ops); sb.query(orig, "identity"); expect[i] = ("val", True)
     sb.meta["derived"] = kind
     return sb.ops, expect, len(user)
 
